@@ -199,6 +199,18 @@ CHECKS = {
         "Deterministic evaluator; same Python/NumPy/SciPy build for the fresh interpreter.",
         "DESIGN.md §3 C16",
     ),
+    "C15": (
+        "fault_enumeration",
+        "exhaustive abort-point injection (every emission x receiver, every evaluator call) with the harness owning the schedule; grammar + exactly-once delivery model; Hypothesis for problem data",
+        "For optimizer steps, evaluator steps, both two-step orders, nested plans and an inner plan reused under two outer plans, each plain, with "
+        "evaluation failures and with a max_functions stop, for slsqp and nelder-mead: the unaborted run is recorded with two recording handlers "
+        "(injected plan_handler plug-in) on every plan level and two observers on every event type, then USER_ABORT is raised at every "
+        "(emission, receiver) pair and inside every evaluator call of that run. Every stream must satisfy the bracket grammar per step, every emission "
+        "must reach own handlers, ancestor handlers, observers exactly once in that order, the aborted step must report USER_ABORT, the plan and its "
+        "ancestors must be latched and a further step must raise PlanAborted.",
+        "Runs are deterministic (fixed seeds) so the unaborted run enumerates the abort points; receivers after the aborting one miss that event.",
+        "DESIGN.md §3 C15",
+    ),
 }
 
 NOT_YET = "check not built yet in this session (planned, see DESIGN.md §3)"
